@@ -11,7 +11,7 @@ BOUNDS = {
     "quick": "every polyline on 3 vertices with every option (targets as int/list/set, every non-empty target set, export on/off, "
              "weights arbitrary reals >= 0 per edge / 'one' / 'length' on collinear symbolic coordinates); every polyline on 4 "
              "vertices with custom weights and a single target; the 2-triangle surface and one tetrahedron with all weight "
-             "modes, single targets (and target sets of size <= 2 on the surface); border variant on the 2-triangle surface",
+             "modes, single targets (and target sets of size <= 2 on the surface); border variant on the 2-triangle surface and, in length mode, on a 6-vertex disk with two interior vertices (two symbolic abscissae); meshes with and without a stale 'length' edge attribute",
     "thorough": "polylines on <=5 vertices (every edge subset), 2-3 triangle surfaces, 1-2 tetrahedra; same options; "
                 "weights as dict or as edge Attribute",
 }
